@@ -206,7 +206,7 @@ fn run_case(case: &Value, variation: u64, vbp: &Path, scratch: &Path) -> Vec<Pro
         argv.push(t.join(format!("extra{}", argv.len())));
     }
     let mut cmd = Command::new(bp.join("bin").join(exe_name));
-    cmd.args(&argv).current_dir(&app).env_clear().env("VBP_SCRIPT", t.join("script.json")).env("VBP_OUT", &vout).env("PATH", "/usr/bin:/bin");
+    cmd.args(&argv).current_dir(&app).env_clear().envs(std::env::var_os("LLVM_PROFILE_FILE").map(|v| ("LLVM_PROFILE_FILE", v))).env("VBP_SCRIPT", t.join("script.json")).env("VBP_OUT", &vout).env("PATH", "/usr/bin:/bin");
     if c("bpdir") == "set" { cmd.env("CNB_BUILDPACK_DIR", &bp); }
     let tvals = [("t_os", "CNB_TARGET_OS", "linux"), ("t_arch", "CNB_TARGET_ARCH", "arm64"), ("t_dname", "CNB_TARGET_DISTRO_NAME", "ubuntu core"), ("t_dver", "CNB_TARGET_DISTRO_VERSION", "24.04")];
     for (f, var, val) in tvals {
